@@ -47,7 +47,8 @@ CHECKS["C01"] = NS(
         "against a stride of (quick) or every (thorough: exhaustive value x scale square) positive finite scale, (b) "
         "boundary-directed float32 values (every grid point and rounding midpoint +-3 ulp, beyond-range, random bit "
         "patterns), (c) Hypothesis-drawn ranks/shapes/layouts with independent per-axis scales, (d) scales of another float "
-        "dtype than the tensor (per-tensor and per-axis). Exploration; float32, layouts and mixed dtypes are sampled, the "
+        "dtype than the tensor (per-tensor and per-axis), (e) order: the layout cases after a history of up to four unrelated library calls, "
+        "each history in a forked child. Exploration; float32, layouts and mixed dtypes are sampled, the "
         "16-bit square is complete in the thorough tier."
     ),
     LEVEL_NOTE="trusts torch's float64 arithmetic and dtype conversions for the reference; tolerance 2(|x/s|u+eta) for the single working-dtype division, 2 ulp for dequantization",
